@@ -56,7 +56,7 @@ TYPES = ('LightSetColor', 'LightSetPower', 'MultiZoneSetColorZones',
 
 
 def runs_for(tier):
-    return 4500 if tier == "quick" else 120000
+    return 6000 if tier == "quick" else 150000
 
 
 # ---------------------------------------------------------------------------
@@ -706,7 +706,8 @@ def _judge(sc, st, hist, sim, cap, violation, probes, res):
         t_start = starts[0][3]
         mine = [w for w in wire if _owner(w[3], w[4]) == 'main' and
                 (st.get('rerun_mark') is None or w[0] < st['rerun_mark'])]
-        if mine:
+        # only commands sent after the stop was invoked can be its doing
+        if mine and any(w[0] > S_inv for w in mine):
             span = max(w[1] for w in mine) - t_start + 2 * tick + 0.05
             ref, dur = solo_timeline(sc['main'], sc['population'], tick,
                                      sc['start'], span)
